@@ -10,13 +10,12 @@ open Sqfs.BlockWriter (hasFlag)
 /-- the front end hands a block to `enqueue_block` -/
 theorem PInv.submit {P : Params} (hP : P.ans = serialAns) {s : Proc} {g : Ghost} {W : WSt} {held : Nat} (x : Blk)
     (hb : Back P s g (g.F P) W) (hacct : Acct s g (boolNat s.blkCurrent.isSome + held + 1))
-    (hfe : FrontInv P.B s.fe (g.front ++ [x]) s.w.inodes.length) (hfin : g.fin = false) :
+    (hx : ItemOK P.B s.w.inodes.length x) (hfp : fproto false (g.front ++ [x]) = true) (hfin : g.fin = false) :
     ∃ s', enqueueBlock P s x = .ok s' ∧ s'.fe = s.fe ∧ s'.w.inodes.length = s.w.inodes.length ∧ s'.maxBacklog = s.maxBacklog ∧
       PInv P s' { g with front := g.front ++ [x], pend := g.pend ++ [processBlock P x], items := g.items ++ [processBlock P x] } held W := by
-  have hx : ItemOK P.B s.w.inodes.length x := hfe.items x (List.mem_append_right _ List.mem_cons_self)
-  obtain ⟨p', he, hb'⟩ := hb.enqueueFront hP x hx hfe.proto
+  obtain ⟨p', he, hb'⟩ := hb.enqueueFront hP x hx hfp
   refine ⟨_, he, rfl, rfl, rfl, ?_⟩
-  refine PInv.intro (g.F P) (Ghost.F_congr P rfl rfl) hb' ?_ hfe ?_
+  refine PInv.intro (g.F P) (Ghost.F_congr P rfl rfl) hb' ?_ ?_
   · exact Acct.enqueue hacct p' _ _ _
   · intro hf; rw [hfin] at hf; cases hf
 
@@ -40,14 +39,16 @@ theorem Back.h_ids {P : Params} (hc : CodecOk P.codec) {s : Proc} {g : Ghost} {F
 /-! ### `begin_file` -/
 
 theorem beginFile_ok {P : Params} (hc : CodecOk P.codec) {s : Proc} {g : Ghost} {W : WSt} (h : PInv P s g 0 W)
+    (hfe : FrontInv P.B s.fe g.front s.w.inodes.length)
     (hbc : s.beginCalled = false) (flags : Nat) (hfl : flags &&& blkUserSettable = flags) :
-    ∃ s', beginFile s flags = .ok s' ∧ PInv P s' g 0 W ∧ s'.fe = feBegin s.fe s.w.inodes.length flags ∧
+    ∃ s', beginFile s flags = .ok s' ∧ PInv P s' g 0 W ∧ FrontInv P.B s'.fe g.front s'.w.inodes.length ∧
+      s'.fe = feBegin s.fe s.w.inodes.length flags ∧
       s'.w.inodes.length = s.w.inodes.length + 1 ∧ s'.maxBacklog = s.maxBacklog := by
   have hne : ¬ (flags &&& blkUserSettable != flags) = true := by simp [hfl]
-  refine ⟨{ s with w := { s.w with inodes := s.w.inodes ++ [{}] }, beginCalled := true, inode := some s.w.inodes.length, blkFlags := flags ||| blkFirstBlock, blkIndex := 0 }, by unfold beginFile; rw [if_neg (by simp [hbc]), if_neg hne], ?_, ?_, by simp, rfl⟩
+  refine ⟨{ s with w := { s.w with inodes := s.w.inodes ++ [{}] }, beginCalled := true, inode := some s.w.inodes.length, blkFlags := flags ||| blkFirstBlock, blkIndex := 0 }, by unfold beginFile; rw [if_neg (by simp [hbc]), if_neg hne], ?_, ?_, ?_, by simp, rfl⟩
   · have hlen : (s.w.inodes ++ [({} : Inode)]).length = s.w.inodes.length + 1 := by simp
     have hb := h.back
-    refine PInv.intro (g.F P) rfl ?_ ?_ ?_ h.finNoPend
+    refine PInv.intro (g.F P) rfl ?_ ?_ h.finNoPend
     · refine { hb with itemsOK := ?_, finv := ?_, inodes := ?_, feIds := ?_ }
       · intro x hx
         simp only [hlen]
@@ -62,8 +63,8 @@ theorem beginFile_ok {P : Params} (hc : CodecOk P.codec) {s : Proc} {g : Ghost} 
     · have := h.acct
       unfold Acct at *
       exact this
-    · have hfi := h.feInv.begin (by simpa [Proc.fe] using hbc) flags hfl
-      simpa [Proc.fe, feBegin] using hfi
+  · have hfi := hfe.begin (by simpa [Proc.fe] using hbc) flags hfl
+    simpa [Proc.fe, feBegin] using hfi
   · simp [Proc.fe, feBegin]
 
 /-! ### `append` -/
@@ -77,25 +78,25 @@ def curRank (cur : Option Blk) (B : Nat) : Nat :=
 
 theorem PInv.setFront {P : Params} {s s' : Proc} {g : Ghost} {held held' : Nat} {W : WSt} (h : PInv P s g held W)
     (hbe : Back P s g (g.F P) W → Back P s' g (g.F P) W)
-    (hacct : Acct s' g (boolNat s'.blkCurrent.isSome + held'))
-    (hfe : FrontInv P.B s'.fe g.front s'.w.inodes.length) : PInv P s' g held' W :=
-  ⟨hbe h.back, hacct, hfe, h.finNoPend⟩
+    (hacct : Acct s' g (boolNat s'.blkCurrent.isSome + held')) : PInv P s' g held' W :=
+  ⟨hbe h.back, hacct, h.finNoPend⟩
 
 theorem appendGo_ok {P : Params} (hP : P.ans = serialAns) (hc : CodecOk P.codec) (hB : P.B < 2 ^ 24) (hBpos : 0 < P.B) :
     ∀ (fuel : Nat) (s : Proc) (data : Bytes) (g : Ghost) (W : WSt),
-      PInv P s g 0 W → s.beginCalled = true → g.fin = false →
+      PInv P s g 0 W → FrontInv P.B s.fe g.front s.w.inodes.length → s.beginCalled = true → g.fin = false →
       (data ≠ [] ∨ s.blkCurrent.isSome = true) →
       (data ≠ [] ∨ ∀ c, s.blkCurrent = some c → c.data ≠ []) →
       3 * data.length + curRank s.blkCurrent P.B < fuel →
       ∃ s' g' W' em, appendGo P fuel s data = .ok s' ∧ feAppendGo P.B fuel s.fe data = some (s'.fe, em) ∧
-        g'.front = g.front ++ em ∧ PInv P s' g' 0 W' ∧ g'.fe = g.fe ∧ g'.fin = false ∧
+        g'.front = g.front ++ em ∧ PInv P s' g' 0 W' ∧ FrontInv P.B s'.fe g'.front s'.w.inodes.length ∧
+        g'.fe = g.fe ∧ g'.fin = false ∧
         s'.w.inodes.length = s.w.inodes.length ∧ s'.maxBacklog = s.maxBacklog ∧
         (∀ c, s'.blkCurrent = some c → c.data ≠ []) := by
   intro fuel
   induction fuel with
-  | zero => intro s data g W _ _ _ _ _ hf; omega
+  | zero => intro s data g W _ _ _ _ _ _ hf; omega
   | succ fuel ih =>
-    intro s data g W h hbc hfin hpre hne hf
+    intro s data g W h hfe0 hbc hfin hpre hne hf
     have hbc' : s.fe.beginCalled = true := hbc
     unfold appendGo feAppendGo
     by_cases hd0 : data.length = 0
@@ -115,21 +116,23 @@ theorem appendGo_ok {P : Params} (hP : P.ans = serialAns) (hc : CodecOk P.codec)
         simp only [hfec]
         by_cases hfull : c.data.length = P.B
         · rw [if_pos hfull, if_pos hfull]
-          have hfi := h.feInv.emit hbc' c hfec hcne
+          have hfi := hfe0.emit hbc' c hfec hcne
           have hacct : Acct { s with blkCurrent := none } g (boolNat ({ s with blkCurrent := none } : Proc).blkCurrent.isSome + 0 + 1) := by
             have := h.acct
             unfold Acct at *
             simp only [hcur, Option.isSome_some, Option.isSome_none, boolNat] at this ⊢
             simpa using this
-          obtain ⟨s', he, hfe', hil, hmb, hinv'⟩ := PInv.submit hP (s := { s with blkCurrent := none }) (held := 0) c { h.back with } hacct hfi hfin
-          refine ⟨s', _, W, [c], he, ?_, rfl, hinv', rfl, hfin, hil, hmb, ?_⟩
+          obtain ⟨s', he, hfe', hil, hmb, hinv'⟩ := PInv.submit hP (s := { s with blkCurrent := none }) (held := 0) c { h.back with } hacct
+            (hfi.items c (List.mem_append_right _ List.mem_cons_self)) hfi.proto hfin
+          refine ⟨s', _, W, [c], he, ?_, rfl, hinv', ?_, rfl, hfin, hil, hmb, ?_⟩
           · rw [hfe']; rfl
+          · rw [hfe', hil]; exact hfi
           · intro c' hc'
             have : s'.fe.blkCurrent = none := by rw [hfe']; rfl
             have h2 : s'.blkCurrent = none := this
             rw [h2] at hc'; cases hc'
         · rw [if_neg hfull, if_neg hfull]
-          refine ⟨s, g, W, [], rfl, rfl, by simp, h, rfl, hfin, rfl, rfl, ?_⟩
+          refine ⟨s, g, W, [], rfl, rfl, by simp, h, by simpa using hfe0, rfl, hfin, rfl, rfl, ?_⟩
           intro c' hc'
           rw [hcur] at hc'; cases hc'; exact hcne
     · -- bytes left
@@ -147,16 +150,16 @@ theorem appendGo_ok {P : Params} (hP : P.ans = serialAns) (hc : CodecOk P.codec)
         have hbc1 : s1.beginCalled = true := by
           have := congrArg Front.beginCalled fr1.fe
           simp only [Proc.fe] at this; rw [this]; exact hbc
-        have hfi1 : FrontInv P.B s1.fe g1.front s1.w.inodes.length := h1.feInv
+        have hfi1 : FrontInv P.B s1.fe g1.front s1.w.inodes.length := by
+          rw [fr1.fe, fr1.front, fr1.inodes]; exact hfe0
         have hfin1 : g1.fin = false := by rw [fr1.fin]; exact hfin
         have h2 : PInv P { s1 with blkCurrent := some { flags := s1.blkFlags, inode := s1.inode, index := s1.blkIndex },
                                    blkIndex := s1.blkIndex + 1, blkFlags := clearFlag s1.blkFlags blkFirstBlock } g1 0 W1 := by
-          refine h1.setFront (fun hb => { hb with }) ?_ ?_
-          · have := h1.acct
-            unfold Acct at *
-            simp only [hcur1, Option.isSome_none, Option.isSome_some, boolNat] at this ⊢
-            simpa using this
-          · exact hfi1.newBlock hbc1 hcur1
+          refine h1.setFront (fun hb => { hb with }) ?_
+          have := h1.acct
+          unfold Acct at *
+          simp only [hcur1, Option.isSome_none, Option.isSome_some, boolNat] at this ⊢
+          simpa using this
         have hm : 3 * data.length + curRank (some ({ flags := s1.blkFlags, inode := s1.inode, index := s1.blkIndex } : Blk)) P.B < fuel := by
           have : curRank s.blkCurrent P.B = 1 := by rw [hcur]; rfl
           have e : curRank (some ({ flags := s1.blkFlags, inode := s1.inode, index := s1.blkIndex } : Blk)) P.B = 0 := by
@@ -164,9 +167,9 @@ theorem appendGo_ok {P : Params} (hP : P.ans = serialAns) (hc : CodecOk P.codec)
             rw [if_neg]
             simp; omega
           omega
-        obtain ⟨s', g', W', em, ha, hfa, hfront, hinv', hgfe, hgfin, hil, hmb, hcne'⟩ :=
-          ih _ data g1 W1 h2 hbc1 hfin1 (Or.inl hdne) (Or.inl hdne) hm
-        refine ⟨s', g', W', em, ha, ?_, ?_, hinv', ?_, hgfin, ?_, ?_, hcne'⟩
+        obtain ⟨s', g', W', em, ha, hfa, hfront, hinv', hfe', hgfe, hgfin, hil, hmb, hcne'⟩ :=
+          ih _ data g1 W1 h2 (hfi1.newBlock hbc1 hcur1) hbc1 hfin1 (Or.inl hdne) (Or.inl hdne) hm
+        refine ⟨s', g', W', em, ha, ?_, ?_, hinv', hfe', ?_, hgfin, ?_, ?_, hcne'⟩
         · rw [← hfa]
           have e := fr1.fe
           simp only [Proc.fe] at e ⊢
@@ -180,20 +183,21 @@ theorem appendGo_ok {P : Params} (hP : P.ans = serialAns) (hc : CodecOk P.codec)
       | some c =>
         have hfec : s.fe.blkCurrent = some c := hcur
         simp only [hfec]
-        obtain ⟨id, hbz⟩ := h.feInv.busy hbc'
+        obtain ⟨id, hbz⟩ := hfe0.busy hbc'
         have hcle : c.data.length ≤ P.B := (hbz.cur c hfec).2.2.1
         by_cases hdiff : P.B - c.data.length = 0
         · -- the open block is full: submit it
           rw [if_pos hdiff, if_pos hdiff]
           have hfull : c.data.length = P.B := by omega
           have hcne : c.data ≠ [] := fun he => by simp [he] at hfull; omega
-          have hfi := h.feInv.emit hbc' c hfec hcne
+          have hfi := hfe0.emit hbc' c hfec hcne
           have hacct : Acct { s with blkCurrent := none } g (boolNat ({ s with blkCurrent := none } : Proc).blkCurrent.isSome + 0 + 1) := by
             have := h.acct
             unfold Acct at *
             simp only [hcur, Option.isSome_some, Option.isSome_none, boolNat] at this ⊢
             simpa using this
-          obtain ⟨s1, he, hfe1, hil1, hmb1, hinv1⟩ := PInv.submit hP (s := { s with blkCurrent := none }) (held := 0) c { h.back with } hacct hfi hfin
+          obtain ⟨s1, he, hfe1, hil1, hmb1, hinv1⟩ := PInv.submit hP (s := { s with blkCurrent := none }) (held := 0) c { h.back with } hacct
+            (hfi.items c (List.mem_append_right _ List.mem_cons_self)) hfi.proto hfin
           rw [he]
           simp only
           have hcur1 : s1.blkCurrent = none := by
@@ -205,9 +209,9 @@ theorem appendGo_ok {P : Params} (hP : P.ans = serialAns) (hc : CodecOk P.codec)
           have hm : 3 * data.length + curRank s1.blkCurrent P.B < fuel := by
             have : curRank s.blkCurrent P.B = 2 := by rw [hcur]; simp [curRank, hfull]
             rw [hcur1]; simp only [curRank]; omega
-          obtain ⟨s', g', W', em, ha, hfa, hfront, hinv', hgfe, hgfin, hil, hmb, hcne'⟩ :=
-            ih s1 data _ W hinv1 hbc1 hfin (Or.inl hdne) (Or.inl hdne) hm
-          refine ⟨s', g', W', c :: em, ha, ?_, ?_, hinv', hgfe, hgfin, ?_, ?_, hcne'⟩
+          obtain ⟨s', g', W', em, ha, hfa, hfront, hinv', hfe', hgfe, hgfin, hil, hmb, hcne'⟩ :=
+            ih s1 data _ W hinv1 (by rw [hfe1, hil1]; exact hfi) hbc1 hfin (Or.inl hdne) (Or.inl hdne) hm
+          refine ⟨s', g', W', c :: em, ha, ?_, ?_, hinv', hfe', hgfe, hgfin, ?_, ?_, hcne'⟩
           · rw [hfe1] at hfa
             have : ({ s with blkCurrent := none } : Proc).fe = { s.fe with blkCurrent := none } := rfl
             rw [this] at hfa
@@ -220,10 +224,10 @@ theorem appendGo_ok {P : Params} (hP : P.ans = serialAns) (hc : CodecOk P.codec)
           have hn1 : 1 ≤ min (P.B - c.data.length) data.length := by
             have : 0 < data.length := Nat.pos_of_ne_zero hd0
             omega
-          have hfi := h.feInv.fill hbc' c hfec (data.take (min (P.B - c.data.length) data.length))
+          have hfi := hfe0.fill hbc' c hfec (data.take (min (P.B - c.data.length) data.length))
             (by simp only [List.length_take]; omega)
           have h2 : PInv P { s with blkCurrent := some { c with data := c.data ++ data.take (min (P.B - c.data.length) data.length) } } g 0 W := by
-            refine h.setFront (fun hb => { hb with }) ?_ hfi
+            refine h.setFront (fun hb => { hb with }) ?_
             have := h.acct
             unfold Acct at *
             simp only [hcur, Option.isSome_some] at this ⊢
@@ -234,8 +238,8 @@ theorem appendGo_ok {P : Params} (hP : P.ans = serialAns) (hc : CodecOk P.codec)
               simp only [curRank]; split <;> omega
             simp only [List.length_drop]
             omega
-          obtain ⟨s', g', W', em, ha, hfa, hfront, hinv', hgfe, hgfin, hil, hmb, hcne'⟩ :=
-            ih _ (data.drop (min (P.B - c.data.length) data.length)) g W h2 hbc hfin (Or.inr rfl)
+          obtain ⟨s', g', W', em, ha, hfa, hfront, hinv', hfe', hgfe, hgfin, hil, hmb, hcne'⟩ :=
+            ih _ (data.drop (min (P.B - c.data.length) data.length)) g W h2 hfi hbc hfin (Or.inr rfl)
               (Or.inr (fun c' hc' => by
                 simp only [Option.some.injEq] at hc'
                 rw [← hc']
@@ -243,6 +247,6 @@ theorem appendGo_ok {P : Params} (hP : P.ans = serialAns) (hc : CodecOk P.codec)
                 have := congrArg List.length he
                 simp only [List.length_append, List.length_take, List.length_nil] at this
                 omega)) hm
-          exact ⟨s', g', W', em, ha, hfa, hfront, hinv', hgfe, hgfin, hil, hmb, hcne'⟩
+          exact ⟨s', g', W', em, ha, hfa, hfront, hinv', hfe', hgfe, hgfin, hil, hmb, hcne'⟩
 
 end Sqfs.BlockProc
